@@ -6,7 +6,7 @@ package main
 
 func frameReplay(w *World, o *Obligation, q *Query, _ map[string]string) (string, string) {
 	src := `// flags: -race
-// confirm: DATA RACE
+// confirm: DATA RACE|REPLAY-CONFIRMED
 package errors_test
 
 import (
@@ -30,7 +30,7 @@ func TestVerifReplay(t *testing.T) {
 		e = errors.WithTelemetry(e, "tk1", "tk2")
 		e = errors.WithIssueLink(e, errors.IssueLink{IssueURL: "http://x/1", Detail: "d"})
 		e = errors.WithHint(errors.WithDetail(e, "detail"), "hint")
-		e = errors.WithSafeDetails(e, "sd %s", errors.Safe("v"))
+		e = errors.WithSafeDetails(e, "sd %s\nsecond line %d", errors.Safe("v"), 7)
 		e = errors.WithSecondaryError(e, errors.New("second"))
 		e = errors.Mark(e, errors.New("ref"))
 		e = errors.Wrapf(e, "wrap %d", 2)
@@ -39,6 +39,27 @@ func TestVerifReplay(t *testing.T) {
 		e = errors.WithAssertionFailure(errors.Wrap(e, "outer"))
 		e = errors.Join(e, errors.New("other"))
 		return errors.Wrap(e, "top")
+	}
+	// purity: observing an error must not change what later observers see
+	for _, e := range []error{
+		build(),
+		errors.WithHint(errors.WithSafeDetails(errors.WithTelemetry(fmt.Errorf("plain %d", 1), "k1\nk2"), "first %d\nsecond %d", 1, 2), "h"),
+		errors.DecodeError(context.Background(), errors.EncodeError(context.Background(), errors.WithSafeDetails(fmt.Errorf("plain"), "x %d\ny", 3))),
+	} {
+		snap := func() string {
+			enc := errors.EncodeError(context.Background(), e)
+			return fmt.Sprintf("%+v|%v|%q", e, errors.GetAllSafeDetails(e), enc.String())
+		}
+		before := snap()
+		_, _ = errors.BuildSentryReport(e)
+		_ = errors.GetAllSafeDetails(e)
+		_ = errors.EncodeError(context.Background(), e)
+		_ = fmt.Sprintf("%+v", e)
+		_ = redact.Sprintf("%+v", e)
+		_ = errors.FlattenHints(e)
+		if after := snap(); after != before {
+			t.Errorf("REPLAY-CONFIRMED: observing the error changed it")
+		}
 	}
 	for round := 0; round < 30; round++ {
 		e := build()
